@@ -19,7 +19,9 @@ STEP = Fraction(1, 8)
 ALTS = {
     "format": ["pcap_le", "pcap_be", "pcap_nano_le", "pcap_nano_be", "pcapng_be"],
     "tsresol": [3, 6, 9, 12, 0x80 | 10, 0x80 | 20, 0x80 | 30],
-    "tsoffset": [3600, -3600, 99990],
+    "tsoffset": [3600, -3600, 99990, [3600, "option_before_tsresol"], [99990, "option_before_tsresol"]],
+    "pre_idb": [["nrb"], ["isb"], ["custom"], ["custom_len1"], ["custom_len4"], ["custom_len5"], ["custom_len12"], ["unknown"],
+                ["custom_len1", "nrb"], ["spb"]],
     "block": [[k, "every"] for k in ("nrb", "isb", "custom", "custom_nc", "unknown", "spb")],
     "options": ["shb_comment", "idb_names", "epb_flags", "all"],
 }
@@ -62,7 +64,7 @@ def build(pkts, var, pos=None):
     fmt = var.get("format", "pcapng_le")
     items = cap.to_items(pkts)
     if fmt.startswith("pcap_"):
-        if any(k in var for k in ("tsresol", "tsoffset", "block", "options")):
+        if any(k in var for k in ("tsresol", "tsoffset", "block", "options", "pre_idb")):
             return None
         return pcapio.write_pcap(items, endian="<" if fmt.endswith("le") else ">", nano="nano" in fmt), ["-l"]
     e = ">" if fmt == "pcapng_be" else "<"
@@ -76,8 +78,14 @@ def build(pkts, var, pos=None):
         kw["idb_opts"] = [(2, b"eth0"), (3, b"uplink"), (12, b"Linux")]
     if opts in ("epb_flags", "all"):
         kw["epb_opts"] = [(2, struct.pack(e + "I", 1)), (1, b"pkt")]
+    to = var.get("tsoffset")
+    if isinstance(to, (list, tuple)):
+        kw["tsoffset_first"] = True
+        to = to[0]
+    if "pre_idb" in var:
+        kw["pre_idb"] = tuple(var["pre_idb"])
     try:
-        return pcapio.write_pcapng(items, endian=e, tsresol=var.get("tsresol"), tsoffset=var.get("tsoffset"), **kw), []
+        return pcapio.write_pcapng(items, endian=e, tsresol=var.get("tsresol"), tsoffset=to, **kw), []
     except ValueError:
         return None
 
